@@ -184,7 +184,7 @@ def snapshot_value(v, memo):
         c.extend(snapshot_value(x, memo) for x in v)
         return c
     if isinstance(v, dict):
-        c = {}
+        c = V.OptDict(maybe=v.maybe) if isinstance(v, V.OptDict) else {}
         memo[k] = c
         for a, b in v.items():
             c[a] = snapshot_value(b, memo)
